@@ -4,29 +4,12 @@ import json, os, glob, re
 V = os.path.dirname(os.path.dirname(os.path.abspath(__file__)))
 rows = []; index = []
 NOTES = {
- 'C01-b2': 'wave 2; detected after the GreensFunction copy constructor was put under contract (round 3) in response to this change',
- 'C09-b1': 'wave 2; detected after the EnsembleAverage copy constructor was put under contract (round 3)',
- 'C14-b2': 'wave 2; detected by the Susceptibility copy-constructor contract (round 3)',
- 'C02-b1': 'wave 2; first UNDECIDED (the 3-argument call broke extraction); detected after a model of the 3-argument TermList call operator was added (records the documented default 1e-16)',
- 'C02-b2': 'wave 2; detected after ResonantTerm::IsNegligible was pinned (round 3)',
- 'C04-b1': 'wave 2; first UNDECIDED (call of another NupNdown overload had no stub); detected after stubs for all factory overloads were added (completeness obligation of addCoulombS)',
- 'C05-b2': 'wave 2; detected after the two-argument N/Sz::getMatrixElement were put under contract (round 3)',
- 'C07-b1': 'wave 2; UNDECIDED (exit 2): the hash generator type was replaced by a hand-written class -- no model, extraction break',
- 'C07-b2': 'wave 2; UNDECIDED (exit 2): new call to floor() inside StatesClassification::compute -- no model, extraction break',
- 'C10-b1': 'wave 2; UNDECIDED (exit 2): sparseView/prune called with an extra reference argument -- no model for that overload',
- 'C04-b2': 'wave 2; C04 check passes (Operator is a recording monitor there); detected by the C05 bounded normal-ordering harnesses',
-
- 'C15-b1': 'wave 2; first NOT detected (the Vertex4 constructor was not under contract: reference members bound crosswise)',
- 'C16-b1': 'wave 2; first NOT detected (the MPIMaster constructors were not under contract: Master_wf was read off the constructor)',
- 'C16-b2': 'wave 2; first NOT detected (same gap: Comm of the master was not tied to the constructor argument)',
- 'C18-b1': 'wave 2; UNDECIDED (exit 2): std::map::lower_bound had no model',
-
- 'C16-2': 'not detected: needs a message to arrive between the posted receive and the member initialisation -- a schedule, outside the sequential per-rank model (C16 claim says so)',
- 'C16-1': 'UNDECIDED: the h_order_worker harness runs out of 30 GB of solver memory on the changed code (no obligation passes or fails)',
- 'C05-1': 'UNDECIDED (exit 2): the function was restructured (new call ket.count(), one loop removed) -- extraction break, by design not a violation',
- 'C03-1': 'UNDECIDED (exit 2): computeGroundEnergy restructured (std::min, different loop) -- the woven spec no longer compiles',
- 'C09-1': 'C09 check passes (its contract REQUIRES eigenvalues >= ground energy, which is C03\'s post-condition); the C03 check is UNDECIDED (function restructured, extraction break)',
- 'C10-2': 'UNDECIDED (exit 2): .transpose() has no model; the change is a no-op in the real-valued build that is verified (breaks the property only with -DPOMEROL_COMPLEX_MATRIX_ELEMENTS)',
+ 'C16-2': 'first NOT detected (called a schedule); detected after the MPI buffer-ownership rule was modelled (irecv may deliver eagerly; no program write to a posted buffer): MPIWorker constructor post-condition',
+ 'C16-1': 'first UNDECIDED (solver out of memory on the changed code); detected after the map model stopped returning cell pointers from a function',
+ 'C05-1': 'first UNDECIDED (one loop removed -> extraction break); detected after `check` learnt to drop loop contracts that no longer fit and run the harness as a counter-example search (function post-condition decides)',
+ 'C03-1': 'first UNDECIDED (std::min had no model, loop restructured); detected after vocabulary + loop-contract drop (post-condition: ground energy <= lowest eigenvalue of an arbitrary block)',
+ 'C09-1': 'C09 check passes by design (its contract REQUIRES eigenvalues >= ground energy, which is the post-condition of C03); detected by the C03 check',
+ 'C10-2': 'NOT a violation in the configuration that is verified: MelemType is real, Eigen adjoint() == transpose() (the change breaks the property only with -DPOMEROL_COMPLEX_MATRIX_ELEMENTS, a build that is not extracted); exit 0 after transpose() got a model',
  'C04-1': 'detected after the 8-argument addHopping was given its own contract (h_addHopping8) in response to this change',
  'C04-2': 'detected after addCoulombP was put under contract (round 2) in response to this change',
  'C01-2': 'detected after GFContainer::createElement was put under contract (specs/containers.c) in response to this change',
@@ -36,6 +19,34 @@ NOTES = {
  'C02-1': 'detected through the TermList<T>::add_term template proof (specs/termlist.c, single-particle instantiation) after that harness was tagged for C02',
  'C17-3': 'detected by the C15 harnesses; they are now also tagged C17',
  'C19-1': 'first run UNDECIDED because the min_obl guard was evaluated before the failures; check fixed, now detected',
+ 'C01-b2': 'detected after the GreensFunction copy constructor was put under contract (round 3) in response to this change',
+ 'C09-b1': 'detected after the EnsembleAverage copy constructor was put under contract (round 3)',
+ 'C14-b2': 'detected by the Susceptibility copy-constructor contract (round 3)',
+ 'C02-b1': 'first UNDECIDED (the 3-argument call broke extraction); detected after a model of the 3-argument TermList call operator was added (records the documented default 1e-16)',
+ 'C02-b2': 'detected after ResonantTerm::IsNegligible was pinned (round 3)',
+ 'C04-b1': 'first UNDECIDED (call of another NupNdown overload had no stub); detected after stubs for all factory overloads were added (completeness obligation of addCoulombS)',
+ 'C05-b2': 'detected after the two-argument N/Sz::getMatrixElement were put under contract (round 3)',
+ 'C07-b1': 'first UNDECIDED (hand-written hash class -> extraction break); detected after the struct printer learnt nested records (stored hash is no longer boost::hash of the numbers)',
+ 'C07-b2': 'first UNDECIDED (floor() had no model), then exit 0 (the value handed to QuantumNumbers::set was not pinned); detected after the value was pinned to the matrix-element oracle of (operation, state)',
+ 'C10-b1': 'NOT detected (exit 0): the contract leaves the pruning threshold undecided -- the header documents "tolerance 1e-8", the unchanged code passes it as Eigen REFERENCE (effective cut-off 1e-20), the change makes the cut-off the documented 1e-8; two-argument sparseView/prune now have a model',
+ 'C04-b2': 'C04 check passes (Operator is a recording monitor there); detected by the C05 bounded normal-ordering harnesses',
+ 'C15-b1': 'first NOT detected; detected after the Vertex4 constructor was put under contract (reference members bound to the argument of the same name)',
+ 'C16-b1': 'first NOT detected; detected after the MPIMaster constructors were put under contract (they ESTABLISH Master_wf, which had been read off the constructor)',
+ 'C16-b2': "first NOT detected; detected by the same constructor contracts (Comm of the master is the caller's communicator)",
+ 'C18-b1': 'first UNDECIDED (std::map::lower_bound had no model); detected after the model was added',
+ 'C14-c2': 'first NOT detected; detected after SusceptibilityPart::Term::operator+=/Compare/IsNegligible were pinned (specs/suscterm.c)',
+ 'C02-c1': 'first NOT detected; detected after TwoParticleGFPart::clear() was put under contract (a purged part must stop reporting Computed)',
+ 'C01-c1': 'first UNDECIDED (std::real(complex) had no model); detected after default models of the <complex> free functions were added',
+ 'C01-c2': 'first reported through DFCC\'s "undefined function" assertion, which `check` now classifies as UNDECIDED (missing vocabulary); detected by a real obligation after GreensFunction::isVanishing got a model (computeAll computes EVERY element)',
+ 'C11-c1': 'detected by the C01 contract of GreensFunctionPart::compute, which the C11 check now also runs (the sum rules are consequences of the Lehmann sum)',
+ 'C11-c2': 'detected by the C01 contract of GreensFunction::prepare, which the C11 check now also runs',
+ 'C13-c2': 'first UNDECIDED (lower_bound on the container map had no model); detected after the model was added',
+ 'C04-c2': 'C04 check passes (term storage is not its subject); first UNDECIDED for C20 (non-const map iterator type had no mapping), detected by the C20 check after the mapping was added',
+ 'C10-c1': 'first NOT detected; detected after the status invariant "Computed => matrices of a computed part" was added to the transpose() contracts',
+ 'C16-c1': 'first UNDECIDED (std::map::empty had no model); detected after the model was added (root always broadcasts both vectors) -- the cross-rank hang itself is outside the per-rank model',
+ 'C18-c1': "first NOT detected (reference member modelled as embedded object); detected after the IndexClassification constructor was put under contract: the member IS the caller's site map",
+ 'C03-c1': 'first UNDECIDED (isDiagonal/diagonal/setIdentity had no model); detected after the dense vocabulary was added (eigenvalues of a computed block are ascending)',
+ 'C09-c2': 'C09 check passes (truncation is the subject of C19); detected by the C19 check',
 }
 for d in sorted(glob.glob(os.path.join(V, 'seeded', 'C*-*'))):
     sid = os.path.basename(d)
